@@ -2,6 +2,7 @@
 C18 — time: what bounds the completion time of `try_send` (the deadline clause) and termination.
 -/
 import HickoryVerif.Model.Pool
+import HickoryVerif.Model.PoolPreFix
 
 namespace HickoryVerif.C18
 open HickoryVerif HickoryVerif.Pool
@@ -221,61 +222,73 @@ theorem processEvent_clock (cfg : Cfg) (st : PState) (ev : Event) :
   split <;> try simp
   split <;> simp
 
-/-- after a batch the clock stands at the end of one of its requests; the back-off is untouched -/
-theorem processEvents_clock (cfg : Cfg) (st : PState) (evs : List Event) :
-    ((processEvents cfg st evs).1.clock = st.clock ∨
-      ∃ ev ∈ evs, (processEvents cfg st evs).1.clock = ev.fin) ∧
-    (processEvents cfg st evs).1.backoff = st.backoff := by
-  induction evs generalizing st with
-  | nil => simp [processEvents]
+/-- handling replies never moves the clock past the deadline (since fix 92faead the wait for every
+reply is raced against the remaining budget); the back-off is untouched -/
+theorem processEvents_clock_le (cfg : Cfg) (dl : Nat) (evs : List Event) :
+    ∀ (st : PState), st.clock ≤ dl →
+      (processEvents cfg dl st evs).1.clock ≤ dl ∧
+      (processEvents cfg dl st evs).1.backoff = st.backoff := by
+  induction evs with
+  | nil => intro st h; simp [processEvents, h]
   | cons ev evs ih =>
-    have hc := processEvent_clock cfg { st with clock := ev.fin } ev
+    intro st h
     simp only [processEvents]
     split
-    · rename_i st' r heq
-      rw [heq] at hc
-      simp only at hc
-      exact ⟨Or.inr ⟨ev, by simp, hc.1⟩, hc.2⟩
-    · rename_i st' heq
-      rw [heq] at hc
-      simp only at hc
-      have := ih st'
-      refine ⟨?_, by rw [this.2, hc.2]⟩
-      rcases this.1 with h | ⟨e, he, h⟩
-      · exact Or.inr ⟨ev, by simp, by rw [h, hc.1]⟩
-      · exact Or.inr ⟨e, by simp [he], h⟩
+    · simp only
+      exact ⟨by omega, trivial⟩
+    · rename_i hfin
+      have hc := processEvent_clock cfg { st with clock := ev.fin } ev
+      split
+      · rename_i st' r heq
+        rw [heq] at hc
+        simp only at hc ⊢
+        exact ⟨by omega, hc.2⟩
+      · rename_i st' heq
+        rw [heq] at hc
+        simp only at hc
+        have := ih st' (by omega)
+        exact ⟨this.1, by rw [this.2, hc.2]⟩
 
-/-- … and if the batch did not end the lookup, at the end of a request of the batch -/
-theorem processEvents_clock_ne (cfg : Cfg) (st : PState) (evs : List Event) (h : evs ≠ []) :
-    ∃ ev ∈ evs, (processEvents cfg st evs).1.clock = ev.fin := by
-  cases evs with
-  | nil => exact absurd rfl h
-  | cons ev evs =>
-    have hc := processEvent_clock cfg { st with clock := ev.fin } ev
-    simp only [processEvents]
+/-- a batch that does not end the lookup leaves the clock at the end of one of its requests -/
+theorem processEvents_none_clock (cfg : Cfg) (dl : Nat) (evs : List Event) :
+    ∀ (st : PState), evs ≠ [] → (processEvents cfg dl st evs).2 = none →
+      ∃ ev ∈ evs, (processEvents cfg dl st evs).1.clock = ev.fin := by
+  induction evs with
+  | nil => intro st h; exact absurd rfl h
+  | cons ev evs ih =>
+    intro st _ hnone
+    simp only [processEvents] at hnone ⊢
     split
-    · rename_i st' r heq
-      rw [heq] at hc
-      exact ⟨ev, by simp, hc.1⟩
-    · rename_i st' heq
-      rw [heq] at hc
-      simp only at hc
-      rcases (processEvents_clock cfg st' evs).1 with h | ⟨e, he, h⟩
-      · exact ⟨ev, by simp, by rw [h, hc.1]⟩
-      · exact ⟨e, by simp [he], h⟩
+    · rename_i hcut; simp [hcut] at hnone
+    · rename_i hfin
+      simp only [hfin, if_false] at hnone
+      have hc := processEvent_clock cfg { st with clock := ev.fin } ev
+      split
+      · rename_i st' r heq; rw [heq] at hnone; simp at hnone
+      · rename_i st' heq
+        rw [heq] at hc hnone
+        simp only at hc hnone
+        by_cases he : evs = []
+        · subst he
+          exact ⟨ev, by simp, by simp [processEvents, hc.1]⟩
+        · obtain ⟨e, hem, hcl⟩ := ih st' he hnone
+          exact ⟨e, by simp [hem], hcl⟩
 
-/-! ## the deadline clause
+/-! ## the deadline clause (FULL strength since fix 92faead)
 
-FULL STATEMENT (the property): for every configuration and every behaviour of the servers
-`trySend cfg rrNext t0 conns fuel = some (r, st') → st'.clock ≤ t0 + cfg.timeout`.
-It is FALSE of the code (`completion_le_deadline_false` below): the deadline is read only at the top of
-each round and when the back-off sleep is capped; a round started before the deadline lasts until
-every request of the batch has ended by itself.  What holds is the bound with the duration of the
-round in progress added (`completion_le_deadline_partial`). -/
+`trySend cfg rrNext t0 conns fuel = some (r, st') → st'.clock ≤ t0 + cfg.timeout`, for every
+configuration, every behaviour and latency of the servers, every pool history.
 
-/-- a round never starts work at or after the deadline, and ends at most one server request later -/
-theorem round_clock_le (cfg : Cfg) (L : Nat) (hL : LatLe cfg L) (dl : Nat) (st : PState)
-    (h : st.clock ≤ dl + 2 * L) : (round cfg dl st).state.clock ≤ dl + 2 * L := by
+What remains outside the theorem is the granularity of the real clock and timer, which the model
+abstracts to "the pool reacts in zero time and timers fire exactly": the real `Timer::delay_for(remaining)`
+(tokio: 1 ms wheel, rounding up) fires no earlier than the deadline and as much later as the timer
+resolution and the scheduler allow; the correspondence run tolerates 40 ms.  No other path waits:
+connection set-up and the reconnect after a reset are inside the request future that is raced, the
+back-off sleep is capped by the remaining budget, and a caller joining a shared lookup is served by a
+deadline that started before its own. -/
+
+theorem round_clock_le (cfg : Cfg) (dl : Nat) (st : PState) (h : st.clock ≤ dl) :
+    (round cfg dl st).state.clock ≤ dl := by
   unfold round
   split
   · exact h
@@ -291,30 +304,26 @@ theorem round_clock_le (cfg : Cfg) (L : Nat) (hL : LatLe cfg L) (dl : Nat) (st :
     · split
       all_goals
         rename_i st2 _ heq
-        have hc := (processEvents_clock cfg
+        have hc := (processEvents_clock_le cfg dl
+          (sortEvents (sendBatch cfg st.disableUdp st.clock
+            (takeBatch cfg st.disableUdp (max cfg.ncr 1) st.queue []).1 st.conns).1)
           { st with queue := (takeBatch cfg st.disableUdp (max cfg.ncr 1) st.queue []).2,
                     conns := (sendBatch cfg st.disableUdp st.clock
                       (takeBatch cfg st.disableUdp (max cfg.ncr 1) st.queue []).1 st.conns).2.1,
-                    log := st.log ++ (sendBatch cfg st.disableUdp st.clock
-                      (takeBatch cfg st.disableUdp (max cfg.ncr 1) st.queue []).1 st.conns).2.2 }
-          (sortEvents (sendBatch cfg st.disableUdp st.clock
-            (takeBatch cfg st.disableUdp (max cfg.ncr 1) st.queue []).1 st.conns).1)).1
+                    log := st.log ++ ((sendBatch cfg st.disableUdp st.clock
+                      (takeBatch cfg st.disableUdp (max cfg.ncr 1) st.queue []).1 st.conns).2.2).filter
+                        (fun e => e.2.start ≤ dl) } h).1
         rw [heq] at hc
-        simp only [RoundOut.state, cancelInFlight]
-        rcases hc with hc | ⟨ev, hev, hc⟩
-        · simp only at hc; omega
-        · have := sendBatch_fin_le cfg L hL st.disableUdp st.clock _ st.conns ev ((mem_sortEvents ev _).mp hev)
-          simp only at hc
-          omega
+        simpa [RoundOut.state, cancelInFlight] using hc
 
-theorem run_clock_le (cfg : Cfg) (L : Nat) (hL : LatLe cfg L) (dl : Nat) (fuel : Nat) :
-    ∀ (st : PState) (r : Res) (st' : PState), st.clock ≤ dl + 2 * L →
-      run cfg dl fuel st = some (r, st') → st'.clock ≤ dl + 2 * L := by
+theorem run_clock_le (cfg : Cfg) (dl : Nat) (fuel : Nat) :
+    ∀ (st : PState) (r : Res) (st' : PState), st.clock ≤ dl →
+      run cfg dl fuel st = some (r, st') → st'.clock ≤ dl := by
   induction fuel with
   | zero => intro st r st' _ h; simp [run] at h
   | succ n ih =>
     intro st r st' hst h
-    have hr := round_clock_le cfg L hL dl st hst
+    have hr := round_clock_le cfg dl st hst
     simp only [run] at h
     split at h
     · rename_i r0 st0 heq
@@ -325,43 +334,41 @@ theorem run_clock_le (cfg : Cfg) (L : Nat) (hL : LatLe cfg L) (dl : Nat) (fuel :
       rw [heq] at hr
       exact ih st0 r st' hr h
 
-/-- **deadline clause, partial**: the lookup completes no later than the configured timeout PLUS the
-duration of the round in progress when the deadline passes — at most one server request, i.e. `2·L`
-when every single exchange takes at most `L` (a reset on a reused connection is retried once). -/
-theorem completion_le_deadline_partial (cfg : Cfg) (L : Nat) (hL : LatLe cfg L)
-    (rrNext t0 : Nat) (conns : List Conn) (fuel : Nat) (r : Res) (st' : PState)
-    (h : trySend cfg rrNext t0 conns fuel = some (r, st')) :
-    st'.clock ≤ t0 + cfg.timeout + 2 * L := by
+/-- **deadline clause, full strength**: in every case the lookup completes — with an answer or an
+error — no later than the configured timeout. -/
+theorem completion_le_deadline (cfg : Cfg) (rrNext t0 : Nat) (conns : List Conn) (fuel : Nat)
+    (r : Res) (st' : PState) (h : trySend cfg rrNext t0 conns fuel = some (r, st')) :
+    st'.clock ≤ t0 + cfg.timeout := by
   unfold trySend at h
-  exact run_clock_le cfg L hL _ fuel _ r st' (by simp [initState]; omega) h
+  exact run_clock_le cfg _ fuel _ r st' (by simp [initState]) h
 
-/-- the configuration of finding C18-F1: timeout 200 ms; server 0 fails with an I/O error after
-160 ms; server 1 never answers and gives up after its own 200 ms timeout -/
+/-- the configuration of the repaired finding C18-F1: timeout 200 ms; server 0 fails with an I/O error
+after 160 ms; server 1 never answers and gives up after its own 200 ms timeout -/
 def cfgOverrun : Cfg :=
   ⟨[⟨true, 0, some [⟨.io, 160⟩], none⟩, ⟨true, 0, some [⟨.to, 200⟩], none⟩], .user, 1, 200⟩
 
-example : LatLe cfgOverrun 200 := latLe_of_all _ _ (by decide) (by decide)
+/-- non-vacuity / regression: the repaired loop abandons server 1 and returns `Timeout` at 200 ms … -/
+example : (trySend cfgOverrun 0 0 [] 10).map (fun x => (x.1, x.2.clock, x.2.log)) =
+    some (.err .timeout, 200, [(0, ⟨.udp, 0⟩), (1, ⟨.udp, 160⟩)]) := by decide
 
-/-- **the full clause is false**: the lookup completes (with `Timeout`) 360 ms after it started,
-although every single exchange respects the 200 ms timeout. -/
-theorem completion_le_deadline_false :
-    (trySend cfgOverrun 0 0 [] 10).map (fun x => (x.1, x.2.clock)) = some (.err .timeout, 360) ∧
+/-- … whereas the loop before fix 92faead (`Model/PoolPreFix.lean`: deadline read only between rounds)
+completed 360 ms after it started although every single exchange respected the 200 ms timeout.
+(Was `completion_le_deadline_false`, the counter-example to the full clause.) -/
+theorem prefix_completion_overrun :
+    (PreFix.trySend cfgOverrun 0 0 [] 10).map (fun x => (x.1, x.2.clock)) = some (.err .timeout, 360) ∧
     ¬ (360 ≤ 0 + cfgOverrun.timeout) := by
   decide
 
-/-- class predicate of finding C18-F1 (decidable): the lookup completes after its deadline -/
-def overrunByLastRound (cfg : Cfg) (rrNext t0 : Nat) (conns : List Conn) (fuel : Nat) : Bool :=
-  match trySend cfg rrNext t0 conns fuel with
-  | some (_, st) => decide (t0 + cfg.timeout < st.clock)
-  | none => false
-
-example : overrunByLastRound cfgOverrun 0 0 [] 10 = true := by decide
-
-/-- every upstream request is STARTED before the deadline (so an overrun is always the tail of a
-round that began in time): a round that finds the clock at or past the deadline sends nothing -/
+/-- a round that finds the clock at or past the deadline sends nothing -/
 theorem no_round_after_deadline (cfg : Cfg) (dl : Nat) (st : PState) (h : dl ≤ st.clock) :
     round cfg dl st = .done (.err .timeout) st := by
   simp [round, h]
+
+/-- a reset on a reused connection at 150 ms, the reconnected request would end at 350 ms: abandoned at
+the deadline like any other request (the reconnect is inside the raced request) -/
+example : (trySend ⟨[⟨true, 0, some [⟨.rst, 150⟩, ⟨.to, 200⟩], none⟩], .user, 1, 200⟩ 0 0
+      [{ liveU := true }] 10).map (fun x => (x.1, x.2.clock, x.2.log)) =
+    some (.err .timeout, 200, [(0, ⟨.udp, 0⟩), (0, ⟨.udp, 150⟩)]) := by decide
 
 /-! ## termination
 
@@ -369,7 +376,8 @@ The measure "servers in the queue + busy servers + back-off steps" does NOT decr
 reply or a case mismatch puts the server back at the front of the queue (a TCP server that keeps
 answering truncated is asked again and again).  What ends every lookup is the clock: a round that
 sends anything advances it (every exchange takes time), a round that sleeps doubles the back-off, and
-the loop stops at the deadline or when the back-off reaches its limit. -/
+the loop stops at the deadline (at the latest: the wait for a reply is cut there) or when the back-off
+reaches its limit. -/
 
 def measure (dl : Nat) (st : PState) : Nat := (dl - st.clock) + (BACKOFF_LIMIT - st.backoff)
 
@@ -411,21 +419,26 @@ theorem round_next_measure (cfg : Cfg) (hP : LatPos cfg) (dl : Nat) (st st' : PS
           · simp at h
           · exact h
         have hev := sendBatch_ne_nil cfg st.disableUdp st.clock _ st.conns hne'
-        have hc := processEvents_clock_ne cfg
-          { st with queue := (takeBatch cfg st.disableUdp (max cfg.ncr 1) st.queue []).2,
-                    conns := (sendBatch cfg st.disableUdp st.clock
-                      (takeBatch cfg st.disableUdp (max cfg.ncr 1) st.queue []).1 st.conns).2.1,
-                    log := st.log ++ (sendBatch cfg st.disableUdp st.clock
-                      (takeBatch cfg st.disableUdp (max cfg.ncr 1) st.queue []).1 st.conns).2.2 }
-          _ (sortEvents_ne_nil _ hev)
-        have hbk := (processEvents_clock cfg
-          { st with queue := (takeBatch cfg st.disableUdp (max cfg.ncr 1) st.queue []).2,
-                    conns := (sendBatch cfg st.disableUdp st.clock
-                      (takeBatch cfg st.disableUdp (max cfg.ncr 1) st.queue []).1 st.conns).2.1,
-                    log := st.log ++ (sendBatch cfg st.disableUdp st.clock
-                      (takeBatch cfg st.disableUdp (max cfg.ncr 1) st.queue []).1 st.conns).2.2 }
+        have hnone : (processEvents cfg dl
+            { st with queue := (takeBatch cfg st.disableUdp (max cfg.ncr 1) st.queue []).2,
+                      conns := (sendBatch cfg st.disableUdp st.clock
+                        (takeBatch cfg st.disableUdp (max cfg.ncr 1) st.queue []).1 st.conns).2.1,
+                      log := st.log ++ ((sendBatch cfg st.disableUdp st.clock
+                        (takeBatch cfg st.disableUdp (max cfg.ncr 1) st.queue []).1 st.conns).2.2).filter
+                          (fun e => e.2.start ≤ dl) }
+            (sortEvents (sendBatch cfg st.disableUdp st.clock
+              (takeBatch cfg st.disableUdp (max cfg.ncr 1) st.queue []).1 st.conns).1)).2 = none := by
+          rw [heq]
+        have hc := processEvents_none_clock cfg dl _ _ (sortEvents_ne_nil _ hev) hnone
+        have hbk := (processEvents_clock_le cfg dl
           (sortEvents (sendBatch cfg st.disableUdp st.clock
-            (takeBatch cfg st.disableUdp (max cfg.ncr 1) st.queue []).1 st.conns).1)).2
+            (takeBatch cfg st.disableUdp (max cfg.ncr 1) st.queue []).1 st.conns).1)
+          { st with queue := (takeBatch cfg st.disableUdp (max cfg.ncr 1) st.queue []).2,
+                    conns := (sendBatch cfg st.disableUdp st.clock
+                      (takeBatch cfg st.disableUdp (max cfg.ncr 1) st.queue []).1 st.conns).2.1,
+                    log := st.log ++ ((sendBatch cfg st.disableUdp st.clock
+                      (takeBatch cfg st.disableUdp (max cfg.ncr 1) st.queue []).1 st.conns).2.2).filter
+                        (fun e => e.2.start ≤ dl) } (by simp only; omega)).2
         rw [heq] at hc hbk
         obtain ⟨ev, hev, hc⟩ := hc
         have hge := sendBatch_fin_ge cfg hP st.disableUdp st.clock _ st.conns hall ev
@@ -461,11 +474,11 @@ theorem terminates (cfg : Cfg) (hP : LatPos cfg) (rrNext t0 : Nat) (conns : List
   · simp [initState, BACKOFF_START]
 
 /-- a TCP server that answers truncated for ever: re-queued at the front every round (so the
-queue never shrinks) and ended only by the deadline check, after 34 rounds -/
+queue never shrinks) and ended only by the deadline, in the 34th round -/
 def cfgRequeue : Cfg := ⟨[⟨true, 0, none, some [⟨.tc, 3⟩]⟩], .user, 1, 100⟩
 
 example : LatPos cfgRequeue := latPos_of_all _ (by decide)
 example : (trySend cfgRequeue 0 0 [] 40).map (fun x => (x.1, x.2.clock, x.2.log.length)) =
-    some (.err .timeout, 102, 34) := by decide
+    some (.err .timeout, 100, 34) := by decide
 
 end HickoryVerif.C18
